@@ -202,9 +202,10 @@ func reference(cs *Case) (allowed bool, trace []string, used int) {
 }
 
 type fixture struct {
-	apps *hx.Apps
-	sc   *script
-	mf   *hx.MixedFactory
+	apps  *hx.Apps
+	appsV *hx.Apps // verbose error responses enabled
+	sc    *script
+	mf    *hx.MixedFactory
 }
 
 func newFixture() *fixture {
@@ -237,7 +238,17 @@ func newFixture() *fixture {
 	f.mf = mf
 	f.apps = hx.NewApps(&config.Configuration{}, nil)
 
+	vconf := &config.Configuration{}
+	vconf.Serve.Decision.Respond.Verbose = true
+	vconf.Serve.Proxy.Respond.Verbose = true
+	f.appsV = hx.NewApps(vconf, nil)
+
 	return f
+}
+
+func (f *fixture) close() {
+	f.apps.Close()
+	f.appsV.Close()
 }
 
 func pipeline(cs *Case) []config.MechanismConfig {
@@ -264,21 +275,29 @@ func (f *fixture) load(cs *Case) error {
 	exec := pipeline(cs)
 	onErr := errPipes[cs.ErrPipe]
 
-	f.apps.Conf.Default = nil
+	for _, apps := range []*hx.Apps{f.apps, f.appsV} {
+		apps.Conf.Default = nil
 
-	switch cs.RuleSource {
-	case "default":
-		f.apps.Conf.Default = &config.DefaultRule{Execute: exec, ErrorHandler: onErr}
-	case "none":
+		if cs.RuleSource == "default" {
+			apps.Conf.Default = &config.DefaultRule{Execute: exec, ErrorHandler: onErr}
+		}
+
+		if err := f.loadInto(apps, cs, exec, onErr); err != nil {
+			return err
+		}
 	}
 
-	return f.apps.Load(f.mf, func(mode config.OperationMode) []*rulecfg.RuleSet {
+	return nil
+}
+
+func (f *fixture) loadInto(apps *hx.Apps, cs *Case, exec, onErr []config.MechanismConfig) error {
+	return apps.Load(f.mf, func(mode config.OperationMode) []*rulecfg.RuleSet {
 		rs := &rulecfg.RuleSet{Version: rulecfg.CurrentRuleSetVersion, Name: "c01"}
 		rs.Source = "c01"
 
 		var backend *rulecfg.Backend
 		if mode == config.ProxyMode {
-			backend = &rulecfg.Backend{Host: f.apps.Upstream.Host()}
+			backend = &rulecfg.Backend{Host: apps.Upstream.Host()}
 		}
 
 		switch cs.RuleSource {
@@ -308,19 +327,26 @@ type obs struct {
 	err     string
 }
 
-func (f *fixture) exec(cs *Case, entry string) obs {
+func (f *fixture) exec(cs *Case, entry string, verbose bool) obs {
 	*f.sc = script{answers: cs.Answers}
 	req := &hx.Req{Method: "GET", Scheme: "http", Host: "svc.local", RawPath: "/x"}
+	apps := f.apps
+
+	if verbose {
+		// verbose error responses and an Accept header no error body format is available for
+		apps = f.appsV
+		req.Header = [][2]string{{"Accept", "image/png"}}
+	}
 
 	var r *hx.Resp
 
 	switch entry {
 	case "decision":
-		r = f.apps.DoDecision(req)
+		r = apps.DoDecision(req)
 	case "proxy":
-		r = f.apps.DoProxy(req)
+		r = apps.DoProxy(req)
 	default:
-		r = f.apps.DoEnvoy(req)
+		r = apps.DoEnvoy(req)
 	}
 
 	o := obs{allowed: r.Allowed, status: r.Status, trace: append([]string{}, f.sc.trace...),
@@ -347,6 +373,11 @@ func (f *fixture) exec(cs *Case, entry string) obs {
 }
 
 var entries = []string{"decision", "proxy", "envoy"}
+
+var entryVariants = []struct {
+	entry   string
+	verbose bool
+}{{"decision", false}, {"proxy", false}, {"envoy", false}, {"decision", true}, {"proxy", true}, {"envoy", true}}
 
 func structures(quick bool) [][]StepCfg {
 	var authn [][]StepCfg
@@ -445,13 +476,18 @@ func Check() *engine.Check {
 func judge(c *engine.Ctx, f *fixture, cs *Case) (sizes []int) {
 	wantAllowed, wantTrace, _ := reference(cs)
 
-	for _, entry := range entries {
-		o := f.exec(cs, entry)
+	for _, ev := range entryVariants {
+		entry := ev.entry
+		o := f.exec(cs, entry, ev.verbose)
 
 		c.Eval(1)
 
-		if entry == "decision" {
+		if entry == "decision" && !ev.verbose {
 			sizes = o.sizes
+		}
+
+		if ev.verbose {
+			entry += "(verbose,accept=image/png)"
 		}
 
 		nontrivial := len(cs.Answers) > 0 || !wantAllowed
@@ -520,7 +556,7 @@ func diagnose(cs *Case, entry, what string) string {
 
 func run(c *engine.Ctx) {
 	f := newFixture()
-	defer f.apps.Close()
+	defer f.close()
 
 	structs := structures(c.Quick())
 	idx := 0
@@ -586,7 +622,7 @@ func replay(c *engine.Ctx, raw json.RawMessage) {
 	}
 
 	f := newFixture()
-	defer f.apps.Close()
+	defer f.close()
 
 	if err := f.load(&cs); err != nil {
 		c.Violation("rule-load-failed", err.Error(), &cs)
@@ -598,7 +634,7 @@ func replay(c *engine.Ctx, raw json.RawMessage) {
 	fmt.Printf("replay: %+v\n reference: allowed=%v trace=%v\n", cs, want, trace)
 
 	for _, e := range entries {
-		o := f.exec(&cs, e)
+		o := f.exec(&cs, e, false)
 		fmt.Printf(" %s: allowed=%v status=%d upstream=%d trace=%v\n", e, o.allowed, o.status, o.ups, o.trace)
 	}
 
